@@ -430,11 +430,10 @@ Proof.
   induction rows as [|row rows IH]; intros st c W C R; simpl; [apply good_ret; [assumption|constructor]|].
   inversion R; subst.
   eapply good_bind; [apply apply_fn_wf; assumption|]. intros v s E Ws Vs.
-  apply good_bindo; [assumption|]. intros a Ha.
   eapply good_bind; [apply IH; [assumption|eapply wf_callable_ext; eauto|]|].
   - eapply Forall_impl; [|eassumption]. intros; eapply wf_vals_ext; eauto.
   - intros vs s2 E2 W2 V2. apply good_ret; [assumption|]. constructor; [|exact V2].
-    eapply wf_val_ext; [exact E2|]. eapply wf_last_red; eauto.
+    eapply wf_val_ext; [exact E2|]. apply wf_primary; assumption.
 Qed.
 Lemma ev_iter_wf : forall vs st sc f x es, wf_state st -> wf_scope st sc -> wf_vals st vs ->
   good_res st ptrue (ev_iter ev st sc f x vs es).
